@@ -61,6 +61,10 @@ enum Batch {
     FontPsf1(u8),
     FontRaw(u32),
     HexMacro(u8),   // first hex character (all byte values), second: all byte values
+    /// fill values [k*4096, (k+1)*4096) after a font with 2^17 glyphs was loaded through the DCS font sequence and selected
+    FillWithBigFont(u32),
+    /// every Unicode scalar value in block k (4096 values) as first and as second character of a hex macro pair (a UTF-8 file can carry them)
+    HexMacroScalar(u32),
 }
 
 struct C10 {
@@ -82,6 +86,13 @@ fn build(tier: &str) -> C10 {
     for cs in [0u8, 1, 8, 16, 255] {
         b.push(Batch::FontPsf1(cs));
     }
+    // the surrogate range and its surroundings, the end of the font table, the end of the Unicode range
+    for k in [0u32, 13, 14, 31, 32, 33, 271, 272] {
+        b.push(Batch::FillWithBigFont(k));
+    }
+    for k in 0..(0x110000u32 / 4096) {
+        b.push(Batch::HexMacroScalar(k));
+    }
     let fill_blocks: u32 = if thorough { 32768 } else { 64 };
     for k in 0..fill_blocks {
         b.push(Batch::Fill(k));
@@ -101,6 +112,17 @@ impl FillRig {
         buf.is_terminal_buffer = true;
         FillRig { buf, caret: Caret::default(), parser: ansi::Parser::default() }
     }
+    /// a rig in which a PSF2 font with 2^17 one byte glyphs sits in slot 5 and is the selected font
+    fn with_big_font() -> Self {
+        use base64::Engine as _;
+        let mut r = FillRig::new();
+        let font = psf2(0x20000, 1, 1, 8);
+        let seq = format!("\x1bPCTerm:Font:5:{}\x1b\\\x1b[0;5 D", base64::engine::general_purpose::STANDARD.encode(font));
+        for c in seq.chars() {
+            let _ = catch(|| r.parser.print_char(&mut r.buf, 0, &mut r.caret, c));
+        }
+        r
+    }
     /// returns the stored value of cell (0,0) after CSI v;1;1;1;1 $ x
     fn fill(&mut self, v: u64, ctx: &mut Ctx) -> Option<u32> {
         let s = format!("\x1b[{v};1;1;1;1$x");
@@ -117,7 +139,10 @@ impl FillRig {
 }
 
 fn fill_values(vals: impl Iterator<Item = u64>, ctx: &mut Ctx) {
-    let mut rig = FillRig::new();
+    fill_values_in(FillRig::new(), vals, ctx)
+}
+
+fn fill_values_in(mut rig: FillRig, vals: impl Iterator<Item = u64>, ctx: &mut Ctx) {
     let mut f = Fnv::new();
     for v in vals {
         ctx.count("evaluations", 1);
@@ -159,6 +184,8 @@ impl Engine for C10 {
             Batch::FontPsf1(c) => format!("PSF1 fonts with charsize {c}, 256 and 512 glyph modes"),
             Batch::FontRaw(n) => format!("font glyph table built from {n} glyphs through create_8 / from_basic (1 byte each)"),
             Batch::HexMacro(a) => format!("hex macro digit pairs (0x{a:02x}, every second byte), macro invoked"),
+            Batch::FillWithBigFont(k) => format!("CSI Pc;1;1;1;1$x for Pc in [{}, {}) with a 2^17 glyph font loaded by DCS and selected", k * 4096, (k + 1) * 4096),
+            Batch::HexMacroScalar(k) => format!("hex macro pairs (c,'0') and ('1',c) for every scalar value c in [{:#x}, {:#x}), macro invoked", k * 4096, (k + 1) * 4096),
         };
         json!({"engine": "unicode", "idx": idx, "batch": d, "key": "unicode"})
     }
@@ -286,6 +313,40 @@ impl Engine for C10 {
                         ctx.state(a.glyphs.len() as u64 ^ 0x7171);
                     }
                 }
+            }
+            Batch::FillWithBigFont(k) => {
+                let lo = *k as u64 * 4096;
+                fill_values_in(FillRig::with_big_font(), lo..lo + 4096, ctx);
+                ctx.count("nontrivial", 1);
+            }
+            Batch::HexMacroScalar(k) => {
+                let mut f = Fnv::new();
+                for v in (*k * 4096)..((*k + 1) * 4096) {
+                    let Some(c) = char::from_u32(v) else { continue };
+                    if c == '\x1b' {
+                        continue;
+                    }
+                    for pair in [[c, '0'], ['1', c]] {
+                        let mut buf = Buffer::new((4, 2));
+                        buf.is_terminal_buffer = true;
+                        let mut caret = Caret::default();
+                        let mut parser = ansi::Parser::default();
+                        let s: String = format!("\x1bP1;0;1!z{}{}\x1b\\\x1b[1*z", pair[0], pair[1]);
+                        ctx.count("evaluations", 1);
+                        ctx.count("transitions", s.chars().count() as u64);
+                        for ch in s.chars() {
+                            if let Err(p) = catch(|| parser.print_char(&mut buf, 0, &mut caret, ch)) {
+                                ctx.panic(&p, json!({"pair": [pair[0] as u32, pair[1] as u32]}));
+                            }
+                        }
+                        check_buffer(&buf, "hex-macro", json!({"pair_scalars": [pair[0] as u32, pair[1] as u32]}), ctx);
+                        if let Some(c) = buf.layers[0].lines.first().and_then(|l| l.chars.first()) {
+                            f.u32(c.ch as u32);
+                        }
+                    }
+                }
+                ctx.state(f.finish());
+                ctx.count("nontrivial", 1);
             }
             Batch::HexMacro(a) => {
                 let mut f = Fnv::new();
